@@ -802,8 +802,12 @@ class Evaluator:
         if m is None:
             raise AnalysisError("expression kind not modelled: %s at %s:%d" % (type(e).__name__, fr.modname, e.lineno))
         r = m(e, fr)
-        if self.bind and isinstance(r, T) and r in self.bind:
-            return self.bind[r]
+        if self.bind and isinstance(r, T):
+            if r in self.bind:
+                return self.bind[r]
+            if not isinstance(e, (ast.Name, ast.Constant)):
+                b = self.bind
+                r = tm.subst(r, lambda t: b.get(t) if isinstance(t, T) else None)
         return r
 
     def hazard(self, fr, exc, operand, node):
@@ -1282,6 +1286,8 @@ class Evaluator:
             en = pos[1] if len(pos) > 1 else kw.get("byteorder", "big")
             if ty == tm.BYTES:
                 return T("raise", ("AttributeError", "bytes.to_bytes"))
+            if kw.get("signed", False) is not False:
+                return T("i2b_signed", (recv, w, en, kw.get("signed")), tm.BYTES)
             return tm.i2b(recv, w, en)
         if meth == "hex" and not pos:
             return tm.hexs(recv)
@@ -1364,6 +1370,8 @@ class Evaluator:
             return tm.length(a0)
         if n == "int.from_bytes":
             en = pos[1] if len(pos) > 1 else kw.get("byteorder", "big")
+            if kw.get("signed", False) is not False:
+                return T("b2i_signed", (a0, en, kw.get("signed")), tm.INT)
             return tm.b2i(a0, en)
         if n == "int.to_bytes":
             w = pos[1] if len(pos) > 1 else kw.get("length", 1)
